@@ -65,7 +65,7 @@ def run_swallow(fx, crates=None, cfgname="A"):
         for bi, t in mv.calls():
             o = callee_orig(t)
             if o in ERROR_BLIND and not span_excluded(t["span"]):
-                if sp and not any(cfg.dominates(s_, bi) for s_ in sp):
+                if sp and not cfg.set_dominates(sp, bi):
                     allowed_sites.add((t["span"]["file"], t["span"]["line"], o))
     for f, bi, t, o, n in probe_sites(fx, ERROR_BLIND, crates):
         key = mkkey("R-PROBE", f.path, o, n)
